@@ -144,6 +144,32 @@ Proof. exact tax_wf_run. Qed.
 Print Assumptions tax_wf_preserved.
 
 
+(** 6. Configured = applied.  Token identifiers stand for the token STRINGS (two spellings that differ
+    in case or blanks are two identifiers); the proposal handler stores the record under the token
+    exactly as submitted (Gen/C15.v [gov_tax_token], [gov_limit_token], read from
+    governance_proposals.go) and a send looks it up by its coin's denom.  After ANY history the tax
+    and limit settings a send of [tok] meets are those of the last accepted proposal submitted for
+    exactly [tok]; a proposal for any other spelling leaves them alone; and the first send after a
+    proposal pays the submitted rate. *)
+Theorem configured_is_applied : forall tok ops s,
+  taxes (run s ops) tok = fold_left (cfg_tax tok) ops (taxes s tok) /\
+  limits (run s ops) tok = fold_left (cfg_limit tok) ops (limits s tok).
+Proof. exact cfg_run. Qed.
+Print Assumptions configured_is_applied.
+
+Theorem other_spelling_is_another_token : forall tok t' cur1 cur2 ok num den ex limit p ex2, t' <> tok ->
+  cfg_tax tok cur1 (SetTax t' ok num den ex) = cur1 /\ cfg_limit tok cur2 (SetLimit t' limit p ex2) = cur2.
+Proof. exact cfg_other_token. Qed.
+Print Assumptions other_spelling_is_another_token.
+
+Theorem configured_tax_is_charged : forall tok num den ex s s1 h snd a mal s2,
+  deliver (SetTax tok true num den ex) s = (s1, Ok) -> 0 < den ->
+  deliver (Send h snd tok a mal) s1 = (s2, Ok) -> tax_wf s ->
+  bal s2 snd tok = bal s snd tok - (a + (if (num =? 0) || mem snd ex then 0 else a * num / den)) /\
+  (forall t', t' <> tok -> taxes s1 t' = taxes s t').
+Proof. exact settax_then_send. Qed.
+Print Assumptions configured_tax_is_charged.
+
 (* --- source translation tie (GenFn) --- *)
 (* The Go function bodies named below are re-translated from the source on every check
    (harness/cmd/extract/gotrans*.go -> GenFn/*.v, semantics of the Go subset: Trans/GoSem.v).
